@@ -292,14 +292,17 @@ def parseLocalId (s : Str) : PR LocalId :=
       else .err .ruid
   else .err .unknown
 
+/-- the four 16-digit groups of a RUID separated by hyphens (`&hex[0..16]` … `&hex[48..64]`; `hex` has
+64 chars because the value is `[u8; 32]`) -/
+def ruidBody (h : Str) : Str :=
+  h.take 16 ++ '-' :: ((h.drop 16).take 16 ++ '-' :: ((h.drop 32).take 16 ++ '-' :: (h.drop 48).take 16))
+
 /-- `impl Display for NonFungibleLocalId` -/
 def printLocalId : LocalId → Str
-  | .str cs => '<' :: cs ++ ['>']
-  | .int n => '#' :: printNat n ++ ['#']
-  | .bytes b => '[' :: hexEncode b ++ [']']
-  | .ruid b =>
-    let h := hexEncode b
-    '{' :: (h.take 16 ++ '-' :: ((h.drop 16).take 16 ++ '-' :: ((h.drop 32).take 16 ++ '-' :: ((h.drop 48).take 16 ++ ['}']))))
+  | .str cs => '<' :: (cs ++ ['>'])
+  | .int n => '#' :: (printNat n ++ ['#'])
+  | .bytes b => '[' :: (hexEncode b ++ [']'])
+  | .ruid b => '{' :: (ruidBody (hexEncode b) ++ ['}'])
 
 /-! ### binary form (`encode_body_common` / `decode_body_common`) -/
 
